@@ -619,7 +619,10 @@ func (sc *specCtx) call(e *ast.CallExpr) Value {
 		}
 		x.usedFuncs["flatlen_"] = true
 		if name == "flatlen" || name == "flatlenk" {
-			return mInt(App("spec.flatlen_", SInt, lens, v.C[1], k))
+			fl := App("spec.flatlen_", SInt, lens, v.C[1], k)
+			// ground instance of lemma/flatlen_nonneg (induction over k from the slice length facts)
+			x.assumeTrue(Le(Num(0), fl))
+			return mInt(fl)
 		}
 		x.usedFuncs["flatat_"] = true
 		return mInt(App("spec.flatat_", SInt, E, refs, offs, lens, v.C[1], k, sc.evalInt(arg(ai))))
@@ -661,6 +664,12 @@ func (sc *specCtx) call(e *ast.CallExpr) Value {
 			out.C[j] = Select(Select(sc.st.region(vals[j], SArr(SArr(c.Sort))), m.C[0]), k)
 		}
 		return out
+	case "boxed":
+		// boxed(T, v): the interface value holding v of concrete type T
+		t := sc.typeExpr(arg(0))
+		v := sc.eval(arg(1))
+		v.T = t
+		return x.makeInterface(sc.st, v, types.NewInterfaceType(nil, nil))
 	case "hastype":
 		v := sc.eval(arg(0))
 		t := sc.typeExpr(arg(1))
@@ -762,7 +771,7 @@ func (x *Exec) specFuncDefs() string {
 				continue
 			}
 			sf := x.S.Funcs[n]
-			if sf.Body == nil {
+			if sf.Body == nil || (sf.Rec && !x.reveal[n]) {
 				continue
 			}
 			ast.Inspect(sf.Body.Expr, func(nd ast.Node) bool {
@@ -809,7 +818,8 @@ func (x *Exec) specFuncDefs() string {
 			}
 		}
 		rs := specSort(sf.Res)
-		if sf.Body == nil {
+		if sf.Body == nil || (sf.Rec && !x.reveal[n]) {
+			// recursive definitions stay opaque unless the contract reveals them
 			var ps []string
 			for i := range sf.Params {
 				ps = append(ps, specSort(sf.PSorts[i]).String())
